@@ -25,4 +25,31 @@ ReadVarint(s, W) ==
   IF k = 0 THEN (IF Len(s) < VarintMax(W) THEN [ok |-> FALSE, err |-> "End"] ELSE [ok |-> FALSE, err |-> "BadVarint"])
   ELSE IF \E p \in W..(7*k - 1) : VBit(s, p) = 1 THEN [ok |-> FALSE, err |-> "BadVarint"]
   ELSE [ok |-> TRUE, used |-> k, bits |-> [p \in 0..(W-1) |-> IF p < 7*k THEN VBit(s, p) ELSE 0]]
+
+\* ---------------------------------------------------------------------------------------------
+\* Implementation-shaped machines (one action per loop iteration of varint.rs / deserializer.rs)
+\* ---------------------------------------------------------------------------------------------
+\* writer: state [i, val (bit vector, width W), out, done]
+LowByte(b, W) == LET bit(k) == IF k < W THEN b[k] ELSE 0
+                 IN bit(0) + 2*bit(1) + 4*bit(2) + 8*bit(3) + 16*bit(4) + 32*bit(5) + 64*bit(6) + 128*bit(7)
+Below128(b, W) == \A k \in 7..(W-1) : b[k] = 0
+Shr7(b, W) == [k \in 0..(W-1) |-> IF k + 7 < W THEN b[k+7] ELSE 0]
+WInit(b) == [i |-> 0, val |-> b, out |-> <<>>, done |-> FALSE]
+WStep(st, W) ==
+  IF st.i >= VarintMax(W) THEN [st EXCEPT !.done = TRUE]          \* fell out of the loop: whole array
+  ELSE LET lb == LowByte(st.val, W) IN
+       IF Below128(st.val, W) THEN [st EXCEPT !.out = Append(@, lb), !.done = TRUE]
+       ELSE [i |-> st.i + 1, val |-> Shr7(st.val, W), out |-> Append(st.out, IF lb >= 128 THEN lb ELSE lb + 128), done |-> FALSE]
+\* reader: state [i, acc (bit vector), status \in {"run","ok","End","BadVarint"}, used]
+MaxLast(W) == Pow2(W % 7) - 1
+RInit(W) == [i |-> 0, acc |-> [k \in 0..(W-1) |-> 0], status |-> "run", used |-> 0]
+\* one loop iteration; `byte` = -1 models pop() failing
+RStep(st, W, byte) ==
+  IF st.i >= VarintMax(W) THEN [st EXCEPT !.status = "BadVarint"]
+  ELSE IF byte = -1 THEN [st EXCEPT !.status = "End"]
+  ELSE LET acc2 == [k \in 0..(W-1) |-> IF k >= 7*st.i /\ k < 7*st.i + 7 /\ (byte \div Pow2(k - 7*st.i)) % 2 = 1 THEN 1 ELSE st.acc[k]]
+       IN IF byte < 128 THEN
+            (IF st.i = VarintMax(W) - 1 /\ byte > MaxLast(W) THEN [st EXCEPT !.status = "BadVarint", !.used = st.i + 1]
+             ELSE [i |-> st.i + 1, acc |-> acc2, status |-> "ok", used |-> st.i + 1])
+          ELSE [i |-> st.i + 1, acc |-> acc2, status |-> "run", used |-> st.i + 1]
 =======================================================================
